@@ -313,9 +313,15 @@ pub fn line(region: &str, variant: u8, n: u32) -> Vec<(String, String, usize)> {
     cfg.dr = Some(top);
     let mut core: NbCore<14, 0> = NbCore::new(&cfg);
     let mut model = Model { cnt: 0, dr: top, owed: false, adr: true, strict: true };
-    let cmd: Vec<u8> = if rr::is_fixed(region) { vec![0x03, (top << 4) | 2, 0xFF, 0x00, 0x61] } else { vec![0x03, (top << 4) | 2, 0x07, 0x00, 0x01] };
+    let mut cmd: Vec<u8> = if rr::is_fixed(region) { vec![0x03, (top << 4) | 2, 0xFF, 0x00, 0x61] } else { vec![0x03, (top << 4) | 2, 0x07, 0x00, 0x01] };
+    // variant 2 (72-channel plans): the network leaves only the 500 kHz channels enabled and commands their data rate
+    let wide = drs.iter().copied().find(|d| rr::dr(region, *d).map(|x| x.bw) == Some(500_000));
+    if variant == 2 {
+        let Some(w) = wide else { return v };
+        cmd = vec![0x03, (w << 4) | 0x0F, 0xFF, 0x00, 0x71];
+    }
     for i in 0..=n {
-        let rx1 = if i == 0 && variant == 0 {
+        let rx1 = if i == 0 && (variant == 0 || variant == 2) {
             Some(Frame::Down { fcnt: Fcnt::Rel(1), confirmed: false, ack: false, fopts: cmd.clone(), port: None, payload: vec![], tamper: Tamper::None })
         } else {
             None
@@ -345,7 +351,7 @@ pub fn line(region: &str, variant: u8, n: u32) -> Vec<(String, String, usize)> {
         let tx_dr: Vec<u8> = rr::dr_index(region, rf.sf, rf.bw).into_iter().filter(|d| *d <= 7).collect();
         if !tx_dr.contains(&model.dr) {
             v.push((
-                format!("C12|line|data-rate|{}", if variant == 0 { "after-linkadr-with-txpower" } else { "plain" }),
+                format!("C12|line|data-rate|{}", match variant { 0 => "after-linkadr-with-txpower", 2 => "500khz-channels-only", _ => "plain" }),
                 format!("[{region}] uplink {i} after {} uplinks without a downlink went out at DR{tx_dr:?}, the back-off schedule gives DR{}", model.cnt, model.dr),
                 i as usize,
             ));
@@ -358,6 +364,13 @@ pub fn line(region: &str, variant: u8, n: u32) -> Vec<(String, String, usize)> {
         if first && !accepted {
             return v; // the command downlink was not constructible / accepted: nothing to follow
         }
+        if first && variant == 2 {
+            // the data rate the device reports after the command is the one the schedule starts from
+            if core.snap().data_rate != wide.unwrap() {
+                return v; // refused: nothing to follow
+            }
+            model.dr = wide.unwrap();
+        }
         if accepted {
             model.cnt = 0;
         } else {
@@ -368,6 +381,52 @@ pub fn line(region: &str, variant: u8, n: u32) -> Vec<(String, String, usize)> {
                 model.dr = l;
             }
         }
+    }
+    v
+}
+
+/// An application that leaves a downlink in a one-entry queue while the next one arrives: the owed ACK follows the
+/// accepted confirmed downlinks, whatever became of their payloads.
+pub fn queue_scenario(region: &str, pattern: [u8; 3]) -> Vec<(String, String, usize)> {
+    let mut v = vec![];
+    let mut cfg = DevCfg::abp(region);
+    cfg.hold_downlinks = true;
+    let mut core: NbCore<14, 0, 1> = NbCore::new(&cfg);
+    let mut owed = false;
+    for i in 0..4usize {
+        let dl = match pattern.get(i).copied().unwrap_or(0) {
+            1 => Some(dlf(false, Tamper::None)),
+            2 => Some(dlf(true, Tamper::None)),
+            _ => None,
+        };
+        let mut tx = None;
+        let mut acc_conf = false;
+        for m in core.apply(&Ev::Cycle { confirmed: false, port: 1, len: 1, rx1: dl, rx2: None }) {
+            if let Resp::Panic(p) = &m.resp {
+                v.push((format!("C12|queue|panic|{}", panic_site(p)), p.clone(), i));
+                return v;
+            }
+            for op in &m.ops {
+                if let RadioOp::Tx { bytes, .. } = op {
+                    tx = Some(bytes.clone());
+                }
+            }
+            if let Some(Judge::Accept { confirmed, .. }) = &m.judge {
+                acc_conf |= *confirmed;
+            }
+        }
+        let Some(bytes) = tx else { return v };
+        let Ok(h) = refcodec::parse_data(&bytes) else { return v };
+        let ack = h.fctrl & 0x20 != 0;
+        if ack != owed {
+            v.push((
+                format!("C12|queue|ack-{}", if ack { "spurious" } else { "missing" }),
+                format!("[{region}] downlinks {pattern:?} (1 unconfirmed, 2 confirmed) with a one-entry queue the application empties every other uplink: uplink {i} carries ACK={ack}, owed={owed}"),
+                i,
+            ));
+            return v;
+        }
+        owed = acc_conf;
     }
     v
 }
@@ -410,6 +469,10 @@ fn events(front: &str, region: &str) -> Vec<E> {
 pub fn run(tier: Tier, replay: Option<&str>) {
     if let Some(path) = replay {
         let c: Case = serde_json::from_value(load_case(path)).expect("case");
+        if c.front == "queue" {
+            let p = [(c.state.cnt / 9 % 3) as u8, (c.state.cnt / 3 % 3) as u8, (c.state.cnt % 3) as u8];
+            replay_exit("C12", path, queue_scenario(&c.region, p).into_iter().map(|x| x.0).collect());
+        }
         if c.front == "line" {
             replay_exit("C12", path, line(&c.region, c.state.cnt as u8, 400).into_iter().map(|x| x.0).collect());
         }
@@ -495,7 +558,21 @@ pub fn run(tier: Tier, replay: Option<&str>) {
     // straight-line histories on one device instance, in every region
     let mut line_uplinks = 0u64;
     for region in REGIONS {
-        for variant in [0u8, 1] {
+        for k in 0..27u32 {
+            let p = [(k / 9 % 3) as u8, (k / 3 % 3) as u8, (k % 3) as u8];
+            for (sig, what, at) in queue_scenario(region, p) {
+                let c = Case {
+                    front: "queue".into(),
+                    region: region.to_string(),
+                    state: St { dr: 0, adr: true, cnt: k, owed_ack: false, confirmed: false, has_down: false, models: vec![] },
+                    event: E::Up { confirmed: false, outcome: 0 },
+                    path_len: at,
+                };
+                ctx.violation(sig, what, serde_json::to_value(&c).unwrap(), at);
+            }
+            line_uplinks += 4;
+        }
+        for variant in [0u8, 1, 2] {
             for (sig, what, at) in line(region, variant, 400) {
                 let c = Case {
                     front: "line".into(),
@@ -519,7 +596,7 @@ pub fn run(tier: Tier, replay: Option<&str>) {
         "samples": [serde_json::to_value(Case { front: "nb".into(), region: "EU868".into(), state: St { dr: 5, adr: true, cnt: 95, owed_ack: true, confirmed: false, has_down: true, models: vec![Model { cnt: 95, dr: 5, owed: true, adr: true, strict: true }] }, event: E::Up { confirmed: true, outcome: 0 }, path_len: 96 }).unwrap()],
         "evaluations": ctx.evals(),
         "distinct_nontrivial": states_total,
-        "rule": "complete reachable graph of (data rate, ADR flag, ADR counter, owed ACK, last uplink confirmed, downlink seen, reference-model candidates) from the fresh session at the highest uplink rate, per region and front-end (nb; async with Class C); every state is restored on a fresh real device through Session (de)serialisation + public setters, then one event is applied: uplink (confirmed / unconfirmed) with outcome {nothing, accepted unconfirmed dl RX1, accepted confirmed dl RX2, rejected dl, authentic but oversized dl in RX2, Class C accepted dl before RX1 / RX2, confirmed Class C dl before RX1 followed by an unconfirmed dl in RX1}, set_adr(on/off), set_datarate(lowest/middle/highest, and DR8 above the RFU gap of the fixed plans). The counter dimension is followed until it has passed every back-off step plus two periods. In addition, in every region, two straight-line histories of 400 unanswered uplinks on one device instance (after an accepted LinkADRReq that commands a TX power, and without one), each uplink compared with the back-off schedule",
+        "rule": "complete reachable graph of (data rate, ADR flag, ADR counter, owed ACK, last uplink confirmed, downlink seen, reference-model candidates) from the fresh session at the highest uplink rate, per region and front-end (nb; async with Class C); every state is restored on a fresh real device through Session (de)serialisation + public setters, then one event is applied: uplink (confirmed / unconfirmed) with outcome {nothing, accepted unconfirmed dl RX1, accepted confirmed dl RX2, rejected dl, authentic but oversized dl in RX2, Class C accepted dl before RX1 / RX2, confirmed Class C dl before RX1 followed by an unconfirmed dl in RX1}, set_adr(on/off), set_datarate(lowest/middle/highest, and DR8 above the RFU gap of the fixed plans). The counter dimension is followed until it has passed every back-off step plus two periods. In addition, in every region, two straight-line histories of 400 unanswered uplinks on one device instance (after an accepted LinkADRReq that commands a TX power, without one, and - 72-channel plans - after one that leaves only the 500 kHz channels enabled), each uplink compared with the back-off schedule; all 27 patterns of three downlinks {none, unconfirmed, confirmed} on a device whose one-entry downlink queue the application empties every other uplink (ACK bit of every uplink)",
         "max_adr_counter_reached": max_cnt_seen,
         "regions": regions,
         "outcomes": outcomes,
@@ -530,6 +607,10 @@ pub fn run(tier: Tier, replay: Option<&str>) {
         let c: Case = serde_json::from_value(cj.clone()).unwrap();
         if c.front == "line" {
             return line(&c.region, c.state.cnt as u8, 400).into_iter().map(|x| x.0).collect();
+        }
+        if c.front == "queue" {
+            let p = [(c.state.cnt / 9 % 3) as u8, (c.state.cnt / 3 % 3) as u8, (c.state.cnt % 3) as u8];
+            return queue_scenario(&c.region, p).into_iter().map(|x| x.0).collect();
         }
         step(&c.front, &c.region, &c.state, &c.event).0.into_iter().map(|x| x.0).collect()
     };
